@@ -37,7 +37,7 @@ fn init() -> State {
     let driver = env("VMON_FUZZ_DRIVER", "c05");
     let tier = if env("VMON_FUZZ_TIER", "quick") == "thorough" { Tier::Thorough } else { Tier::Quick };
     let mut ctx = Ctx {
-        prop: driver.to_uppercase(), tier, seed: env("VMON_FUZZ_SEED", "1").parse().unwrap_or(1), shard: env("VMON_FUZZ_SHARD", "0").parse().unwrap_or(0), nshards: 1,
+        prop: driver.to_uppercase(), tier, seed: env("VMON_FUZZ_SEED", "1").parse().unwrap_or(1), shard: 0, nshards: 1,
         cfg: env("VMON_FUZZ_CFG", "fuzz"), part: env("VMON_FUZZ_PART", ""), only_case: Some(u64::MAX), scale: 1, tmpdir: env("VMON_FUZZ_TMP", "/tmp"), dir: String::new(),
         evals: 0, checks: 0, digests: HashSet::new(), digest_overflow: 0, samples: Vec::new(), violations: Vec::new(), violation_sigs: HashSet::new(),
         violations_total: 0, counters: BTreeMap::new(), notes: BTreeMap::new(), inconclusive: Vec::new(), case_no: 0, budget: 0, budget_hit: false, fuzz: None,
